@@ -169,7 +169,7 @@ func (r *bungeeCordMessageResponder) prepareForwardMessage(in io.Reader) (forwar
 		return
 	}
 	messageLen, err := util.ReadInt16(in)
-	if err != nil {
+	if err != nil || messageLen < 0 {
 		return
 	}
 	msg := make([]byte, messageLen)
